@@ -390,7 +390,7 @@ impl<'c, KD: Kind, const N: usize> MapEng<'c, KD, N> {
                         match (res[i], e) {
                             (Some(t), Some(e)) => {
                                 cx.chk(owner, t.0 == want_addr[i], "position", || format!("position {i} (key {}) does not refer to the value get_mut returns for that key", keys[i]));
-                                cx.chk(owner, t.1 == e.val && (!KD::TRACKED || t.2 == e.vid), "position", || format!("position {i} (key {}) holds value {}, get_mut would give {}", keys[i], t.1, e.val));
+                                cx.chk(owner, t.1 == e.val && (!KD::IDENT || t.2 == e.vid), "position", || format!("position {i} (key {}) holds value {}, get_mut would give {}", keys[i], t.1, e.val));
                             }
                             (None, None) => {}
                             (got, _) => {
@@ -596,6 +596,14 @@ impl<'c, KD: Kind, const N: usize> MapEng<'c, KD, N> {
                     };
                     cx.log(|| format!("fmt[{w}] form {sub}: {out:?}"));
                     cx.chk(P19, out == want, "container-format", || format!("form {sub}: rendered {out:?}, expected {want:?}"));
+                    // Debug under other formatter options: the standard builder hands them to every entry
+                    let spec = b as usize % mmv_base::fmtutil::NFLAGS;
+                    let real: Vec<(KD::K, KD::V)> = tl::outside(|| obs.iter().map(|o| (KD::key(o.raw), KD::val(o.val))).collect());
+                    let want2 = mmv_base::fmtutil::ref_debug_flags(&mmv_base::fmtutil::RealMap(&real), spec);
+                    if let Ok(out2) = mmv_base::fmtutil::fmt_debug_flags::<KD>(cx, &slot.c.m, spec) {
+                        cx.chk(P19, out2 == want2, "container-format-flags", || format!("Debug with {}: rendered {out2:?}, the standard map rendering of the same entries is {want2:?}", mmv_base::fmtutil::FLAG_NAMES[spec]));
+                    }
+                    tl::outside(|| drop(real));
                 }
                 Err(p) => fault = unexpected(cx, false, P19, &p),
             }
@@ -786,7 +794,7 @@ impl<'c, KD: Kind, const N: usize> MapEng<'c, KD, N> {
                                         if rv != o.val {
                                             same = false;
                                         }
-                                        if KD::TRACKED {
+                                        if KD::IDENT {
                                             // same role: index of the supplied item whose key object is stored
                                             let role_ref = rids.iter().position(|x| *x == rk);
                                             let role_new = ids.iter().position(|x| x.0 == o.kid);
